@@ -922,29 +922,33 @@ func (s *Server) lookupNexusAllocation(ctx context.Context, mac net.HardwareAddr
 func (s *Server) handleRelease(req *dhcpv4.DHCPv4) {
 	mac := req.ClientHWAddr
 
+	// The lease leaves the table, the circuit-ID index and the pool in one step (as in
+	// the expiry sweep): a REQUEST of the same client handled in between would find
+	// no lease but still its pool binding, and get a new lease on an address that
+	// is then freed underneath it
 	s.leasesMu.Lock()
 	lease, exists := s.leases[mac.String()]
 	if exists {
 		delete(s.leases, mac.String())
-	}
-	s.leasesMu.Unlock()
 
-	// Remove from circuit-ID secondary index
-	if exists && len(lease.CircuitID) > 0 {
-		cidKey := hex.EncodeToString(lease.CircuitID)
-		s.leasesByCircuitIDMu.Lock()
-		delete(s.leasesByCircuitID, cidKey)
-		s.leasesByCircuitIDMu.Unlock()
-	}
-
-	if exists {
-		// Accounting-Stop, QoS policy, NAT block
-		s.releaseSessionResources(mac, lease, radius.TerminateCauseUserRequest)
+		// Remove from circuit-ID secondary index
+		if len(lease.CircuitID) > 0 {
+			cidKey := hex.EncodeToString(lease.CircuitID)
+			s.leasesByCircuitIDMu.Lock()
+			delete(s.leasesByCircuitID, cidKey)
+			s.leasesByCircuitIDMu.Unlock()
+		}
 
 		// Release IP back to pool
 		if pool := s.poolMgr.GetPool(lease.PoolID); pool != nil {
 			pool.Release(lease.IP)
 		}
+	}
+	s.leasesMu.Unlock()
+
+	if exists {
+		// Accounting-Stop, QoS policy, NAT block
+		s.releaseSessionResources(mac, lease, radius.TerminateCauseUserRequest)
 
 		// Remove from fast path cache (MAC-based)
 		macU64 := ebpf.MACToUint64(mac)
@@ -1070,15 +1074,22 @@ func (s *Server) handleDecline(req *dhcpv4.DHCPv4) {
 	if exists {
 		delete(s.leases, mac.String())
 	}
-	s.leasesMu.Unlock()
-
-	// Remove from circuit-ID secondary index
-	if exists && lease != nil && len(lease.CircuitID) > 0 {
-		cidKey := hex.EncodeToString(lease.CircuitID)
-		s.leasesByCircuitIDMu.Lock()
-		delete(s.leasesByCircuitID, cidKey)
-		s.leasesByCircuitIDMu.Unlock()
+	if exists && lease != nil {
+		// Index and pool change together with the table (see handleRelease)
+		if len(lease.CircuitID) > 0 {
+			cidKey := hex.EncodeToString(lease.CircuitID)
+			s.leasesByCircuitIDMu.Lock()
+			delete(s.leasesByCircuitID, cidKey)
+			s.leasesByCircuitIDMu.Unlock()
+		}
+		if pool := s.poolMgr.GetPool(lease.PoolID); pool != nil {
+			// Drop the client's pool binding first, otherwise the next
+			// DISCOVER from this client is offered the declined address again
+			pool.Release(declinedIP)
+			pool.MarkUnavailable(declinedIP)
+		}
 	}
+	s.leasesMu.Unlock()
 
 	if exists && lease != nil {
 		// The lease is gone: the fast path must stop answering from it
@@ -1086,13 +1097,6 @@ func (s *Server) handleDecline(req *dhcpv4.DHCPv4) {
 
 		// The session is over as after a RELEASE: Accounting-Stop, QoS policy, NAT block
 		s.releaseSessionResources(mac, lease, radius.TerminateCauseLostService)
-
-		if pool := s.poolMgr.GetPool(lease.PoolID); pool != nil {
-			// Drop the client's pool binding first, otherwise the next
-			// DISCOVER from this client is offered the declined address again
-			pool.Release(declinedIP)
-			pool.MarkUnavailable(declinedIP)
-		}
 	}
 }
 
